@@ -650,4 +650,27 @@ theorem prun_settled (ops : List POp) (p : Pipe) (h : p.Settled) : (Pipe.run p o
   | nil => exact h
   | cons o r ih => exact ih _ (pstep_settled p o h)
 
+/-! ## Saturating load: refill -/
+
+theorem refill_not_accepting (c : Counter) (fuel : Nat) (h : c.accepting = false) :
+    c.refill fuel = c := by
+  cases fuel with
+  | zero => rfl
+  | succ f => simp [Counter.refill, inc_snd, h]
+
+theorem refill_full (fuel : Nat) (c : Counter) (ha : c.accepting = true) (hlt : c.current < c.stop)
+    (hs : c.stop < two64) (hf : c.stop - c.current ≤ fuel) :
+    c.refill fuel = { c with current := c.stop, accepting := false } := by
+  induction fuel generalizing c with
+  | zero => omega
+  | succ f ih =>
+    have h2 : c.increment.2 = true := by rw [inc_snd]; exact ha
+    simp only [Counter.refill, h2, if_true]
+    rw [inc_fst c ha hlt hs]
+    by_cases hn : c.current + 1 < c.stop
+    · rw [ih _ (by simp [hn]) (by simpa using hn) (by simpa using hs) (by simp; omega)]
+    · have he : c.current + 1 = c.stop := by omega
+      rw [refill_not_accepting _ _ (by simp [hn])]
+      simp [he]
+
 end Agd.ConnLimit
